@@ -56,6 +56,7 @@ type Contract struct {
 	At           []*AtClause
 	Wrapper      *WrapperSpec
 	Safety       []string
+	Blocking     []string // props: no mutex may be held at a blocking channel operation
 	Params       []string
 	Results      []string
 	Fresh        bool // result is a freshly allocated object
@@ -352,6 +353,8 @@ func ParseContracts(file, text, pkg string, out *ContractSet) error {
 		default:
 			if strings.HasPrefix(word, "safety[") {
 				cur.Safety = parseProps(word[6:])
+			} else if strings.HasPrefix(word, "blocking[") {
+				cur.Blocking = parseProps(word[8:])
 			} else if strings.HasPrefix(word, "allocbound[") {
 				// allocbound[props] expr : every make([]T, n) in the function has n <= expr
 				cur.AllocBound = &Clause{Props: parseProps(word[10:]), Text: rest, Where: where, Label: "alloc-bound"}
